@@ -330,6 +330,13 @@ func (cmd *mainCmd) Run(args []string) error {
 				continue
 			}
 
+		} else if _, err := parser.ParseFile(token.NewFileSet(), filename, bs, parser.AllErrors); err != nil {
+			// Import processing is what normally re-parses the
+			// generated source. Without it, verify the result
+			// ourselves so that we never emit invalid Go code.
+			log.Printf("%s: failed: %v", filename, err)
+			errors = append(errors, fmt.Errorf("rewritten %q is not valid Go: %v", filename, err))
+			continue
 		}
 
 		switch {
